@@ -68,12 +68,19 @@ func runC09(c *Ctx) {
 			}
 		})
 	}
-	if me == nil {
-		c.Fail("C09.R3", "anchor:exception matcher", rme.Pos(), "unresolved anchor: the exception remover calls no func(nr, exc *NetworkRule, bool) bool")
-		return
+	// the matcher is an internal helper: when it exists in its familiar shape it is expanded by
+	// name, otherwise it is a new helper (or a closure / method value) and transparent anyway
+	c.Fn(FuncName(dr), FuncName(dra), FuncName(rme))
+	scope := []*ssa.Function{dr, rme, dra}
+	if me != nil {
+		c.Fn(FuncName(me))
+		scope = append(scope, me)
 	}
-	c.Fn(FuncName(dr), FuncName(dra), FuncName(rme), FuncName(me))
-	scope := []*ssa.Function{dr, rme, me, dra}
+	for gf := range helperGroup(c.P, rme, dr) {
+		if c.P.IsNewHelper(gf) {
+			scope = append(scope, gf)
+		}
+	}
 	for _, fn := range withAnon(rme)[1:] {
 		scope = append(scope, fn)
 	}
@@ -221,87 +228,14 @@ func runC09(c *Ctx) {
 	}
 
 	// ---------- R3 decision tables ----------
+	// The remover is evaluated with its internal helpers transparent (the matcher, closures,
+	// method values, small carrier structs): the result is the input list, nil, or
+	// slices.DeleteFunc(list, lambda(P)) with P a formula over the candidate element.
 	{
 		g := NewGate(c.P)
-		g.Inline = inlineOnly("(*rules.NetworkRule).IsOptionEnabled")
-		s := g.Eval(me)
-		u := g.U
-		ps := g.ParamExprs(me)
-		nr, exc, excImp := ps[0], ps[1], ps[2]
-		H := u.ToBool(g.RetExpr(s, 0))
-		roles := map[string]*E{}
-		unknown := ""
-		dfield := func(p *E, f string) string { return u.Field(u.Field(p, "DNSRewrite", nil), f, nil).key }
-		for _, at := range u.AtomsOf(H) {
-			c.Atoms[at.key] = true
-			switch {
-			case at == excImp:
-				roles["excImp"] = at
-			case at.Op == "eq" && at.Args[0].Op == "bin" && isIntConst(at.Args[1], kImp) && u.Mentions(at, func(x *E) bool { return x == nr }):
-				roles["nrImp"] = at
-			case at.Op == "eq" && at.Args[0].Op == "len" && at.Args[0].Args[0].key == dfield(exc, "NewCNAME") && isIntConst(at.Args[1], 0):
-				roles["excCnameEmpty"] = at
-			case at.Op == "eq" && pairIs(at, dfield(exc, "NewCNAME"), dfield(nr, "NewCNAME")):
-				roles["sameCname"] = at
-			case at.Op == "eq" && pairIs(at, dfield(exc, "RCode"), dfield(nr, "RCode")):
-				roles["sameRcode"] = at
-			case at.Op == "eq" && at.Args[0].key == dfield(exc, "RCode") && isIntConst(at.Args[1], 0):
-				roles["excSuccess"] = at
-			case at.Op == "eq" && pairIs(at, dfield(exc, "RRType"), dfield(nr, "RRType")):
-				roles["sameType"] = at
-			case (at.Op == "call" || at.Op == "eq") && len(at.Args) >= 2 && pairIs(at, dfield(exc, "Value"), dfield(nr, "Value")):
-				roles["sameValue"] = at
-			default:
-				unknown = u.Show(at)
-			}
-		}
-		key := shortFn(me) + ": decision table"
-		if unknown != "" {
-			c.Fail("C09.R3", key, me.Pos(), "UNDECIDED: the matcher reads a predicate outside the documented criteria: "+clip(unknown, 160))
-		} else {
-			names := []string{"excImp", "nrImp", "excCnameEmpty", "sameCname", "sameRcode", "excSuccess", "sameType", "sameValue"}
-			for _, n := range names {
-				if roles[n] == nil && n != "excImp" {
-					unknown = n
-				}
-			}
-			bad := ""
-			if unknown != "" {
-				bad = "a documented criterion is never read: " + unknown
-			}
-			n := 0
-			for m := 0; m < 1<<len(names) && bad == ""; m++ {
-				val := map[string]bool{}
-				asgKey := map[string]bool{}
-				for i, nm := range names {
-					val[nm] = m&(1<<i) != 0
-					if roles[nm] != nil {
-						asgKey[roles[nm].key] = val[nm]
-					}
-				}
-				got := u.bdd.Eval(H, func(v int) bool { return asgKey[u.atoms[v].key] })
-				n++
-				var want bool
-				switch {
-				case !val["excImp"] && val["nrImp"]:
-					want = false
-				case !val["excCnameEmpty"]:
-					want = val["sameCname"]
-				default:
-					want = val["sameRcode"] && (!val["excSuccess"] || (val["sameType"] && val["sameValue"]))
-				}
-				if got != want {
-					bad = fmt.Sprintf("for %v the matcher says disabled=%v, the statement says %v", val, got, want)
-				}
-			}
-			c.Paths += n
-			c.Check(bad == "", "C09.R3", key, me.Pos(), fmt.Sprintf("equals the documented table on %d valuations of %d atoms", n, len(names)), bad)
-		}
-	}
-	{
-		// removeMatchingException: four cases
-		g := NewGate(c.P)
-		g.Inline = inlineOnly("(*rules.NetworkRule).IsOptionEnabled")
+		// everything below the remover is internal: expand all of it
+		g.Inline = nil
+		g.Search = true
 		s := g.Eval(rme)
 		u := g.U
 		ps := g.ParamExprs(rme)
@@ -310,13 +244,16 @@ func runC09(c *Ctx) {
 		key := shortFn(rme) + ": four documented cases"
 		bad := ""
 		noRewrite := u.ToBool(u.Eq(u.Field(exc, "DNSRewrite", nil), u.mk("nil", "", nil)))
-		en := u.Field(exc, "enabledOptions", types.Typ[types.Uint64])
-		kc := u.ConstVal(constantInt(kImp), types.Typ[types.Uint64])
-		excImp := u.ToBool(u.Eq(u.Bin(token.AND, en, kc, types.Typ[types.Uint64]), kc))
-		// the "empty value" atom is whatever else the table depends on
+		impOf := func(r *E) Ref {
+			en := u.Field(r, "enabledOptions", types.Typ[types.Uint64])
+			kc := u.ConstVal(constantInt(kImp), types.Typ[types.Uint64])
+			return u.ToBool(u.Eq(u.Bin(token.AND, en, kc, types.Typ[types.Uint64]), kc))
+		}
+		excImp := impOf(exc)
+		dfield := func(p *E, f string) string { return u.Field(u.Field(p, "DNSRewrite", nil), f, nil).key }
+		// the "empty value" atom is whatever else the case split depends on
 		var emptyAtoms []*E
-		for leaf, cond := range u.Leaves(res) {
-			_ = leaf
+		for _, cond := range u.Leaves(res) {
 			for _, at := range u.AtomsOf(cond) {
 				if u.Atom(at) != excImp && u.Atom(at) != noRewrite {
 					dup := false
@@ -331,6 +268,7 @@ func runC09(c *Ctx) {
 				}
 			}
 		}
+		nTables := 0
 		if len(emptyAtoms) != 1 {
 			bad = fmt.Sprintf("UNDECIDED: expected exactly one test for an empty exception value, found %d", len(emptyAtoms))
 		} else {
@@ -339,17 +277,6 @@ func runC09(c *Ctx) {
 				bad = "UNDECIDED: the emptiness test does not read the exception's rewrite: " + u.Show(ea)
 			}
 			empty := u.Atom(ea)
-			closurePred := func(leaf *E) (*ssa.Function, []*E) {
-				if leaf.Op != "call" || !strings.HasPrefix(leaf.Aux, "slices.DeleteFunc") || len(leaf.Args) < 2 || leaf.Args[0] != nrules || (leaf.Args[1].Op != "makeclosure" && leaf.Args[1].Op != "func") {
-					return nil, nil
-				}
-				for _, fn := range rme.AnonFuncs {
-					if FuncName(fn) == leaf.Args[1].Aux {
-						return fn, leaf.Args[1].Args
-					}
-				}
-				return nil, nil
-			}
 			for leaf, cond := range u.Leaves(res) {
 				if bad != "" {
 					break
@@ -363,55 +290,118 @@ func runC09(c *Ctx) {
 					if cond != u.bdd.And(u.bdd.Not(noRewrite), u.bdd.And(empty, excImp)) {
 						bad = "everything is removed under " + clip(u.ShowBool(cond), 120) + ", documented: exactly for an important exception with an empty value"
 					}
-				default:
-					fn, binds := closurePred(leaf)
-					if fn == nil {
-						bad = "UNDECIDED: unrecognised result " + clip(u.Show(leaf), 120)
+				case leaf.Op == "call" && strings.HasPrefix(leaf.Aux, "slices.DeleteFunc") && len(leaf.Args) == 2 && leaf.Args[0] == nrules && leaf.Args[1].Op == "lambda":
+					P := u.ToBool(leaf.Args[1].Args[0])
+					var nr *E
+					for _, at := range u.AtomsOf(P) {
+						for _, x := range u.Collect(at, func(x *E) bool { return x.Op == "bvar" }) {
+							nr = x
+						}
+					}
+					if nr == nil {
+						bad = "the deletion predicate does not depend on the candidate rule: " + clip(u.ShowBool(P), 120)
 						break
 					}
-					g2 := NewGate(c.P)
-					g2.Inline = inlineOnly("(*rules.NetworkRule).IsOptionEnabled")
-					s2 := g2.Eval(fn)
-					r2 := g2.RetExpr(s2, 0)
-					p2 := g2.ParamExprs(fn)[0]
-					u2 := g2.U
-					if cond == u.bdd.And(u.bdd.Not(noRewrite), u.bdd.And(empty, u.bdd.Not(excImp))) {
-						en2 := u2.Field(p2, "enabledOptions", types.Typ[types.Uint64])
-						k2 := u2.ConstVal(constantInt(kImp), types.Typ[types.Uint64])
-						want := u2.bdd.Not(u2.ToBool(u2.Eq(u2.Bin(token.AND, en2, k2, types.Typ[types.Uint64]), k2)))
-						if u2.ToBool(r2) != want {
-							bad = "a non-important empty exception must delete exactly the non-important rewrites; predicate is " + clip(u2.Show(r2), 120)
+					nrImp := impOf(nr)
+					switch cond {
+					case u.bdd.And(u.bdd.Not(noRewrite), u.bdd.And(empty, u.bdd.Not(excImp))):
+						// P is evaluated under this case condition
+						got := u.bdd.Restrict(P, cond)
+						if got != u.bdd.Not(nrImp) {
+							bad = "a non-important empty exception must delete exactly the non-important rewrites; predicate is " + clip(u.ShowBool(got), 120)
 						}
-					} else if cond == u.bdd.And(u.bdd.Not(noRewrite), u.bdd.Not(empty)) {
-						// predicate must be matchException(nr, exc, excImportant) with the captured exception and its importance
-						rb := u2.ToBool(r2)
-						okp := len(u2.bdd.Support(rb)) == 1
-						if okp {
-							at := u2.atoms[u2.bdd.Support(rb)[0]]
-							okp = rb == u2.Atom(at) && at.Op == "call" && at.Aux == calleeName(me) && at.Args[0] == p2 && len(fn.FreeVars) == len(binds)
-
-							if okp {
-								// free variables: which bindings are passed
-								for i, fv := range fn.FreeVars {
-									fe := u2.mk("freevar", fv.Name(), fv.Type())
-									if at.Args[1] == fe || (at.Args[1].Op == "load" && at.Args[1].Args[0] == fe) {
-										if !(binds[i] == exc || (binds[i].Op == "alloc")) {
-											okp = false
-										}
-									}
-								}
+					case u.bdd.And(u.bdd.Not(noRewrite), u.bdd.Not(empty)):
+						nTables++
+						H := P
+						roles := map[string]*E{}
+						unknown := ""
+						for _, at := range u.AtomsOf(H) {
+							c.Atoms[at.key] = true
+							switch {
+							case u.Atom(at) == excImp:
+								roles["excImp"] = at
+							case u.Atom(at) == nrImp:
+								roles["nrImp"] = at
+							case u.Atom(at) == empty:
+								roles["excCnameEmpty"] = at
+							case at.Op == "eq" && at.Args[0].Op == "len" && at.Args[0].Args[0].key == dfield(exc, "NewCNAME") && isIntConst(at.Args[1], 0):
+								roles["excCnameEmpty"] = at
+							case at.Op == "eq" && pairIs(at, dfield(exc, "NewCNAME"), dfield(nr, "NewCNAME")):
+								roles["sameCname"] = at
+							case at.Op == "eq" && pairIs(at, dfield(exc, "RCode"), dfield(nr, "RCode")):
+								roles["sameRcode"] = at
+							case at.Op == "eq" && at.Args[0].key == dfield(exc, "RCode") && isIntConst(at.Args[1], 0):
+								roles["excSuccess"] = at
+							case at.Op == "eq" && pairIs(at, dfield(exc, "RRType"), dfield(nr, "RRType")):
+								roles["sameType"] = at
+							case (at.Op == "call" || at.Op == "eq") && len(at.Args) >= 2 && pairIs(at, dfield(exc, "Value"), dfield(nr, "Value")):
+								roles["sameValue"] = at
+							case u.Atom(at) == noRewrite:
+								roles["noRewrite"] = at
+							default:
+								unknown = u.Show(at)
 							}
 						}
-						if !okp {
-							bad = "an exception with a value must delete exactly the rewrites the matcher says it disables; predicate is " + clip(u2.Show(r2), 160)
+						if unknown != "" {
+							bad = "UNDECIDED: the matcher reads a predicate outside the documented criteria: " + clip(unknown, 160)
+							break
 						}
-					} else {
+						names := []string{"excImp", "nrImp", "excCnameEmpty", "sameCname", "sameRcode", "excSuccess", "sameType", "sameValue"}
+						for _, n := range names {
+							if roles[n] == nil && n != "excImp" && n != "excCnameEmpty" {
+								bad = "a documented criterion is never read: " + n
+							}
+						}
+						n := 0
+						for m := 0; m < 1<<len(names) && bad == ""; m++ {
+							val := map[string]bool{}
+							asgKey := map[string]bool{}
+							for i, nm := range names {
+								val[nm] = m&(1<<i) != 0
+								if roles[nm] != nil {
+									asgKey[roles[nm].key] = val[nm]
+								}
+							}
+							if roles["noRewrite"] != nil {
+								asgKey[roles["noRewrite"].key] = false
+							}
+							// this case: the exception has a value.  "Empty value" is the emptiness of
+							// the new CNAME together with a zero response code etc.; within this case
+							// the table is the documented one for every valuation of the criteria.
+							if ea.Op == "eq" && roles["excCnameEmpty"] == ea && val["excCnameEmpty"] {
+								// the case condition (value not empty) excludes this valuation only when
+								// emptiness is the CNAME test itself
+								continue
+							}
+							got := u.bdd.Eval(H, func(v int) bool { return asgKey[u.atoms[v].key] })
+							n++
+							var want bool
+							switch {
+							case !val["excImp"] && val["nrImp"]:
+								want = false
+							case !val["excCnameEmpty"]:
+								want = val["sameCname"]
+							default:
+								want = val["sameRcode"] && (!val["excSuccess"] || (val["sameType"] && val["sameValue"]))
+							}
+							if got != want {
+								bad = fmt.Sprintf("for %v the matcher says disabled=%v, the statement says %v", val, got, want)
+							}
+						}
+						c.Paths += n
+					default:
 						bad = "DeleteFunc applied under an undocumented condition " + clip(u.ShowBool(cond), 160)
 					}
+				default:
+					bad = "UNDECIDED: unrecognised result " + clip(u.Show(leaf), 120)
 				}
 			}
 		}
-		c.Check(bad == "", "C09.R3", key, rme.Pos(), "no rewrite => unchanged; empty+important => nothing left; empty => non-important removed; value => matcher decides", bad)
+		if bad == "" && nTables == 0 {
+			bad = "an exception with a value deletes nothing: no deletion by the documented criteria found"
+		}
+		c.Check(bad == "", "C09.R3", key, rme.Pos(), "no rewrite => unchanged; empty+important => nothing left; empty => non-important removed; value => the documented decision table over the candidate", bad)
+		c.Check(bad == "", "C09.R3", shortFn(rme)+": decision table of the deletion predicate", rme.Pos(), "equals the documented table on all valuations of its criteria", bad)
 	}
 
 	// ---------- R4 by-value ----------
@@ -456,7 +446,7 @@ func runC09(c *Ctx) {
 			})
 		}
 		c.Extra["rewrite_value_dynamic_types"] = sortedKeys(dyn)
-		c.Check(bad == "", "C09.R4", "no interface == on DNSRewrite.Value anywhere in the library", me.Pos(), fmt.Sprintf("%d ==/!= sites inspected; dynamic types of the field: %v", n, sortedKeys(dyn)), bad)
+		c.Check(bad == "", "C09.R4", "no interface == on DNSRewrite.Value anywhere in the library", rme.Pos(), fmt.Sprintf("%d ==/!= sites inspected; dynamic types of the field: %v", n, sortedKeys(dyn)), bad)
 	}
 
 	// ---------- R5 order preserving; R6 fresh ----------
